@@ -3,6 +3,7 @@ package c19
 
 import (
 	"bytes"
+	"sync"
 	"encoding/base64"
 	"fmt"
 	"os"
@@ -133,6 +134,28 @@ func checkReader(c *h.Ctx, r reader, cs Case, where string) {
 	}
 }
 
+// every nonce (first 24 bytes of a stored ciphertext) produced in this process
+var (
+	nonceMu   sync.Mutex
+	nonceSeen = map[string]int{}
+	nonceN    int
+)
+
+func noteNonce(c *h.Ctx, stored []byte) {
+	if len(stored) < 24 {
+		return
+	}
+	k := string(stored[:24])
+	nonceMu.Lock()
+	defer nonceMu.Unlock()
+	nonceN++
+	if first, dup := nonceSeen[k]; dup {
+		c.Fail("C19/nonce-reuse-across-calls", "encryption #%d of this process reuses the nonce of encryption #%d", nonceN, first)
+		return
+	}
+	nonceSeen[k] = nonceN
+}
+
 func run(c *h.Ctx, cs Case) {
 	m := meta.NewMeta()
 	if err := add(m, cs, "secret", cs.Key); err != nil {
@@ -157,6 +180,8 @@ func run(c *h.Ctx, cs Case) {
 	if bytes.Equal(s1, s2) {
 		c.Fail("C19/nonce-reuse", "two encryptions of the same value under the same key are identical")
 	}
+	noteNonce(c, s1)
+	noteNonce(c, s2)
 	var r reader = m.ReadOnly()
 	where := "meta"
 	var sealed, sealedJSON []byte
@@ -328,3 +353,22 @@ func draw(t *rapid.T) Case {
 var prop = h.Define(P, "encmeta", draw, run)
 
 func TestEncryptedMeta(t *testing.T) { prop.Check(t) }
+
+// TestManyEncryptions: one value, one key, many encryptions in one process: all
+// stored values (hence all nonces) must differ.
+func TestManyEncryptions(t *testing.T) {
+	n := h.N(20000, 400000)
+	key := bytes.Repeat([]byte{3}, 32)
+	ctx := &h.Ctx{P: P, T: t}
+	for i := 0; i < n; i++ {
+		m := meta.NewMeta()
+		if err := m.AddEncrypted("k", "the same plaintext every time", key); err != nil {
+			t.Fatalf("INCONCLUSIVE %v", err)
+		}
+		b, _ := m.GetBytes("k")
+		noteNonce(ctx, b)
+	}
+	P.EvalN(n)
+	P.AddDistinct(n)
+	P.SetExtra("encryptions_with_distinct_nonces", n)
+}
